@@ -97,6 +97,15 @@ fn main() {
         signal_hook::low_level::unregister(id);
         println!("socket_ok_unregistered {} 1 1", closes(fd));
     }
+    // a descriptor that is open, is no socket and refuses F_SETFL (O_PATH): the registration is refused half-way through
+    {
+        let fd = unsafe { libc::open(b"/\0".as_ptr() as *const libc::c_char, libc::O_PATH) };
+        reset(fd);
+        let res = pipe::register_raw(libc::SIGUSR1, fd);
+        println!("raw_opath_fd {} 1 {}", closes(fd), res.is_err() as i32);
+        let still = unsafe { libc::fcntl(fd, libc::F_GETFD) } != -1;
+        println!("raw_opath_fd_closed {} 0 1", still as i32);
+    }
     // an invalid descriptor handed over with a valid signal: the registration is refused (set_flags fails)
     {
         let (r, w) = new_pipe();
